@@ -11,104 +11,147 @@ COQ_PROPS = "Props/C20.v"
 COQ_RUN = ("Count.EquationsRun", "run_c20")
 GEN_TARGETS = ["product_shifts"]
 N = {"quick": 2600, "thorough": 45000}
-GENF_SHARE = {"quick": 0.07, "thorough": 0.12}
+GENF_SHARE = {"quick": 0.18, "thorough": 0.25}   # share of the word specifications that run get_genf
 RULE = (
     "two streams over REAL objects of /repo. (spec, 45%) specifications found by the searcher (auto_search's loop without "
     "its wall clock, so that parent and worker processes see the same specification) on the word classes of example.py "
     "with the packs of harness/universes/words_ext.py (symmetries, inferral, factories, verification packs, iterative) x "
     "{RuleDB, RuleDBForgetStrategy, RuleDBForest with and without reverse rules} x random proof-tree seeds, on word classes "
     "WITH statistics (harness/universes/words_stats_c20.py: letter counts, several names for one statistic, 1-3 statistics, "
-    "indexed names k_1 k_2 .., names in both alphabetical orders; 14 packs: every rule keeps the names / permutes them "
+    "indexed names k_1 k_2 .., names in both alphabetical orders; 16 packs: every rule keeps the names / permutes them "
     "cyclically / exchanges two / only some children permute / children list their statistics in another order / "
     "factors re-index k_i -> k_(i-1) / name-exchanging relabellings as equivalences (equivalence paths whose composed "
     "dictionary permutes names) / ready rules with a foreign parent used in reverse (fallback equation) / products "
-    "with >= 3 factors) and on plane "
-    "trees counted by leaves, also planted on 1-5 extra leaves (non-linear systems: sympy.solve returns several branches "
-    "that agree on the first terms); every equation of get_equations() is walked structurally (func/args) into a canonical "
-    "form and compared with the model's equation for the descriptor of the same rule, and both sides are evaluated on "
-    "brute-force true series (model: order 4-6, oracle: order 7-10, several variables included). A bounded share of the "
-    "univariate specs also runs get_genf(), once as is and once with the solver's list of solutions reversed: Taylor "
-    "coefficients to order 30 against count_objects_of_size and brute force, and the identity check (the returned function "
-    "extends to a solution of the whole system that satisfies every equation identically, is analytic at 0 and vanishes "
-    "below every class's minimum size); with statistics get_genf must refuse (NotImplementedError). (rule, 55%) single rules "
-    "built directly: union / product (2 factors, and >= 3 factors with the non-atom first, last, in the middle) / "
+    "with >= 3 factors / the LIBRARY's AtomStrategy on one-word classes with statistics, whose get_genf refuses: "
+    "get_equations() then emits its placeholder equations inside a returned specification) and on plane trees (internal nodes of arities within a set, optionally WEIGHTED: a node of arity k "
+    "carries w_k extra atoms; size = leaves + atoms), rooted plainly, at a node of given arity, or planted on j extra leaves: "
+    "T = x + sum x^(w_k) T^k -- rational systems (arities (1,)), quadratic ones with square-root closed forms and two "
+    "branches (arities within {1,2}: Catalan, Motzkin, Schroeder, ... 11 shapes), degree >= 3 (equations only). Every "
+    "equation of get_equations() is walked structurally (func/args) into a canonical form and compared with the model's "
+    "equation for the descriptor of the same rule, and both sides are evaluated on brute-force true series (model: order "
+    "4-6, oracle: order 7-10, several variables included). PER RULE the oracle first evaluates the genuineness hypothesis "
+    "of the theorems (union_genuine / product_genuine / atom / empty, by its own positional re-keying of brute-force term "
+    "tables, all parameters, to the oracle's order; reverse rules: the original rule; paths: the composed dictionary) and "
+    "records child parameters nobody is mapped to as 'zero' (0 on every object) or 'genuine'. get_genf (>= 150 returned "
+    "closed forms per quick run: every tree specification of degree <= 2, 18% of the univariate word specifications; "
+    "check = 6, sometimes 3 or 9; planted j up to check (boundary) and, while the solver-order finding is open, check+1, "
+    "check+2) is run as is and, when the solver listed >= 2 solutions, once more with that list reversed; then: (a) "
+    "sympy.solve is re-run on the emitted system exactly as get_genf calls it (cached by the system) and the solutions "
+    "whose root function is the returned one are taken; (b) on such a solution every class has a solved function and "
+    "every emitted equation holds as an IDENTITY (sympy.simplify(lhs - rhs) == 0; if simplify cannot decide, exact "
+    "series expansion to x^40 -- recorded which), every solved function is a power series with integer coefficients "
+    "that vanishes below its class's minimum size and agrees with brute force on EVERY class to order 8; (c) the "
+    "returned function's Taylor coefficients (exact truncated-series arithmetic over Q, harness) equal brute-force "
+    "counts as far as brute force is affordable (n <= 7..14, recorded) and the counts of an independent recurrence of "
+    "the harness (transfer recurrence for words, convolution recurrence for trees; no objects, no library) up to x^40; "
+    "the library's own counts are only recorded; (d) whether C20_closed_form_criterion speaks about the specification "
+    "(rule forms, the rules' shifts() = the declared shifts, minimum sizes, the root pumps) is recorded: applies / "
+    "outside:quotient / outside:verified. With statistics get_genf must refuse (NotImplementedError). (rule, 55%) single "
+    "rules built directly: union / product (2 factors, and >= 3 factors with the non-atom first, last, in the middle) / "
     "relabelling strategies with statistics in the modes keep, merge (several parent parameters -> one child parameter), "
-    "rename to new names, and NAME-PERMUTING modes in which a child parameter carries the name of a DIFFERENT parent "
-    "parameter, so that get_equation's substitution has to be simultaneous: cyclic shift, transposition, chains k_i -> "
-    "k_(i-1) and k_i -> k_(i+1) with one new name (partial overlap), merge onto another parent's name, reversed argument "
-    "order, a different mode per child, and explicit random injections of the parent's names into (parent names + new "
-    "names) per child; in every form: forward, reverse w.r.t. each child (Complement/Quotient own "
-    "equation without parameters, fallback to the original equation with parameters), EquivalenceRule, its reverse, "
-    "EquivalencePathRule over 1-3 relabelling steps (any of the modes above; composed permutations and their inverses) "
-    "forwards, backwards and mixed. The oracle substitutes the brute-force series of each class POSITIONALLY for the "
-    "arguments of every F_i in the emitted equation and compares all coefficients up to the order, so a wrong argument "
-    "shows at a low-order coefficient; the run fails unless name-permuting dictionaries were reached (equation emitted "
-    "and evaluated) in every rule form, in single rules and inside specifications. Shapes of the three known findings are "
-    "generated only while they are listed as open in known_findings.json (integer modes 1/3 only; name-permuting, "
-    "per-child and explicit modes never match a known finding). Non-trivial: spec case with >= 3 equations "
-    "incl. a product, reverse or path equation, all evaluated; rule case whose equation is emitted and has >= 3 non-zero "
-    "coefficients up to the model's order; distinct = distinct case descriptors."
+    "rename to new names, NAME-PERMUTING modes in which a child parameter carries the name of a DIFFERENT parent "
+    "parameter (cyclic shift, transposition, chains, merge onto another parent's name, reversed argument order, a "
+    "different mode per child, explicit random injections), and ZERO statistics (a statistic that is 0 on every word: "
+    "dropped by the child = an unmapped parent parameter; gained by the child = an unmapped child parameter that is "
+    "identically 0); in every form: forward, reverse w.r.t. each child (Complement/Quotient own equation without "
+    "parameters, fallback to the original equation with parameters), EquivalenceRule, its reverse (an equation only "
+    "with the empty dictionary: zero statistics on either side; otherwise the placeholder), EquivalencePathRule over 1-3 "
+    "relabelling steps forwards, backwards and mixed -- including paths whose END class tracks a statistic the start "
+    "class does not (EquivalencePathRule.constructor: fixed_values = {k: 0}); the steps wrapped in EquivalenceRules or "
+    "bare (as a specification holds one-child rules); products with a SINGLE factor (fix 25e10f1) in every form: "
+    "forward, reverse, EquivalenceRule (a one-child union equation), its reverse (no constructor: placeholder), as path "
+    "steps (composed like union / Complement steps; wrapped and reversed: the path has no constructor). The run fails "
+    "unless all of these were reached. Shapes of the three known findings are generated only while they are listed as open in known_findings.json "
+    "and are matched by mechanism (see finding_match). Non-trivial: spec case with >= 3 equations incl. a product, reverse "
+    "or path equation, all evaluated; rule case whose equation is emitted and has >= 3 non-zero coefficients up to the "
+    "model's order; distinct = distinct case descriptors."
 )
 TECHNIQUE = (
-    "Coq proof (truncated multivariate power series as finite term lists; uniqueness through Spec/Eval.v) + "
-    "extracted-model/implementation correspondence on the sympy objects of real specifications + per-instance "
-    "sympy identity check for get_genf"
+    "Coq proof (truncated multivariate power series as finite term lists; uniqueness through Spec/Eval.v; the "
+    "closed-form criterion as a corollary) + extracted-model/implementation correspondence on the sympy objects of "
+    "real specifications + per-instance check of the criterion's premise for get_genf (sympy.solve / simplify, exact "
+    "series arithmetic, brute force, an independent counting recurrence)"
 )
 LEVEL_TEXT = (
-    "Theorems C20_* (coq/theories/Props/C20.v). For every truncation order N and every comparison variable set: the "
-    "equation emitted for a union rule (with the substitution child variable := product of the parent variables "
-    "mapped to it), for a product rule with injective parameter dictionaries, for their reverses in the form the "
-    "code emits (Sub directly; Div read as the cross-multiplied identity; with parameters: the fallback to the "
-    "original rule's equation), for equivalence rules/paths (as unions with the composed dictionary), for atoms and "
-    "empty classes, holds coefficient-wise up to order N when every F_label is read as the class's true series, "
-    "provided the rule is genuine (positional re-keying of the children's term tables, as get_terms does). Variables "
-    "of the model are NAMES (sympy symbols are global by name) and the model's subs is the simultaneous substitution "
-    "of subs(..., simultaneous=True); the dictionaries are arbitrary, also name-permuting (a child parameter named like "
-    "another parent parameter). "
-    "C20_unique_series: for a univariate specification of union/product/complement/atom/empty rules that pumps "
-    "w.r.t. the declared shifts (product shifts re-translated from CartesianProductStrategy.shifts), any two "
-    "families of series that satisfy all emitted equations at every order and vanish below the classes' minimum "
-    "sizes coincide (via Spec/Eval.v unique_solution). C20_unique_needs_minimum_sizes_refuted: without the "
-    "minimum-size condition the equation system of a specification that pumps can have two power-series solutions "
-    "(witness inside the model: E -> E x E; natural instance, exercised by the harness: A = x + A*A, both branches "
-    "1/2 -+ sqrt(1-4x)/2 are integer power series). C20_product_collision_refuted: CartesianProduct.get_equation with two parent parameters mapped "
-    "to one child parameter emits an equation that a genuine rule does not satisfy."
+    "Theorems C20_* (coq/theories/Props/C20.v). GROUP 1, for every truncation order N and every comparison variable set: "
+    "the equation emitted for a union rule (substitution child variable := product of the parent variables mapped to "
+    "it), for a product rule with injective parameter dictionaries, for their reverses in the form the code emits (Sub "
+    "directly; Div read as the cross-multiplied identity; with parameters: the fallback to the original rule's "
+    "equation), for EquivalenceRule of a union rule or of a product rule with a single factor, for "
+    "EquivalencePathRule (a one-child union with the composed dictionary), for atoms and empty classes, holds coefficient-wise up to order N when every F_label is read as the "
+    "class's true series, PROVIDED (i) the rule is genuine -- a hypothesis: union_genuine on term tables (positional "
+    "re-keying, as get_terms re-keys), product_genuine on series coefficients at the same N -- and (ii) every parameter "
+    "of a child is the image of a parent parameter (kid_wf) or, in the *_zero_statistic / *_fixed_values versions, is 0 "
+    "on every object of the child (kid_wf0; the case in which EquivalencePathRule.constructor passes fixed_values = "
+    "{k: 0}: the child's own variable stays in the equation, harmlessly). C20_equivalence_reverse_equation_satisfied: "
+    "EquivalenceRule of a REVERSED union rule emits F_c = F_p only with the empty dictionary and that equation holds "
+    "(both classes' parameters are then 0 on every object); C20_equivalence_reverse_with_parameters_has_no_equation: "
+    "otherwise Complement.get_equation raises and, unlike ReverseRule, nothing falls back -- get_equations emits the "
+    "placeholder F = NOTIMPLEMENTED(x), about which nothing is claimed. C20_without_parameters_every_rule_has_equation: "
+    "a specification without parameters never gets a placeholder. C20_union_unmapped_refuted / "
+    "C20_product_collision_refuted: a genuine union rule (and the equivalence path over it) with a child parameter "
+    "nobody is mapped to that is NOT identically 0, and a genuine product rule with two parent parameters mapped to one "
+    "child parameter, emit equations that are not satisfied (open findings). Variables of the model are NAMES (sympy "
+    "symbols are global by name) and the model's subs is the simultaneous substitution of subs(..., simultaneous=True). "
+    "GROUP 2, univariate: C20_unique_series (two families that satisfy every emitted equation of a union / product / "
+    "complement / atom / empty specification at every order and vanish below the declared minimum sizes coincide on "
+    "every class that pumps w.r.t. the declared shifts), C20_unique_needs_minimum_sizes_refuted (not without the "
+    "minimum-size condition), C20_true_counts_solution (if every rule is genuine in plain arithmetic -- union = sum, "
+    "product = full Cauchy product -- the true counts are such a family), and C20_closed_form_criterion: if "
+    "additionally a family G of coefficient sequences, one per class, satisfies every emitted equation at every order "
+    "(i.e. identically as formal power series) and vanishes below the minimum sizes, then G's coefficients are the "
+    "true counts at EVERY order."
 )
 LEVEL_NOTE = (
-    "Not reachable by a Coq theorem: get_genf obtains closed forms from sympy.solve and selects one by `check`+1 "
-    "initial terms of the ROOT only; sympy (solve, series, simplify, subs) is trusted. C20_unique_series reduces "
-    "'Taylor coefficients equal the counts at every order' to 'the returned function extends to functions for all "
-    "classes that satisfy every emitted equation identically, are analytic at 0 and vanish below the minimum "
-    "sizes'; THAT is checked per instance with sympy (simplify(lhs - rhs) == 0, series), plus a Taylor comparison "
-    "to order 30, for get_genf as is and with the solver's solutions listed in reverse order (the choice among "
-    "branches that agree on the compared initial terms is made by that order: known finding). Trusted: Coq kernel, extraction + OCaml driver, the harness (conversion of rule objects to "
-    "descriptors, the canonical form of sympy trees). Modelled not verified: the get_equation methods (tied by this "
-    "correspondence). Genuineness of a rule (C09) is a hypothesis; Quotient rules are outside C20_unique_series."
+    "Nothing is proved about get_genf, get_initial_conditions or taylor_expand themselves (they are in no model): "
+    "get_genf obtains closed forms from sympy.solve and selects one by check+1 initial terms of the ROOT only. What is "
+    "proved is the reduction C20_closed_form_criterion; its premise is checked PER INSTANCE, as far as sympy allows: "
+    "the returned function is the root's function in a solution of sympy.solve's that has a function for every "
+    "class, satisfies every emitted equation identically (simplify; exact series to x^40 when simplify cannot decide) "
+    "and consists of integer power series vanishing below the minimum sizes. The criterion's other hypotheses are "
+    "checked per instance only to a finite order or not at all: genuineness of every rule to the oracle's order "
+    "(7-10), the rules' shifts() = the declared shifts, the root pumps (value iteration with a cut-off), integer "
+    "coefficients to order 8 (root: 40); specifications with a Quotient rule or a user verification strategy are "
+    "outside the criterion (recorded as such; for them only the Taylor comparison to x^40 and the identity check "
+    "stand). The Taylor comparison is against brute force (n <= 7..14) and beyond that against an independent "
+    "recurrence of the harness, not against the library's counts. Trusted: Coq kernel, extraction + OCaml driver, "
+    "sympy (solve, simplify, subs, expression trees), the harness (conversion of rule objects to descriptors, the "
+    "canonical form of sympy trees, its series arithmetic and counting recurrences). Modelled not verified: the "
+    "get_equation methods (tied by this correspondence). Genuineness of a rule is a hypothesis of every group-1 "
+    "theorem and is concluded by no property (C09 assumes it as well, over other predicates)."
 )
 TRUSTED = [
-    "sympy: solve/series/simplify/subs/expand/Poly (identity check and Taylor comparison of get_genf results; "
-    "canonicalisation of sums and products inside the emitted equations)",
+    "sympy: solve/simplify/subs/expand/Poly (identity check of get_genf results; canonicalisation of sums and products "
+    "inside the emitted equations); sympy.series only for expressions outside rational functions and square roots",
     "modelled, not verified: get_equation of DisjointUnion, Complement, CartesianProduct, Quotient, Rule, ReverseRule, "
     "EquivalenceRule, EquivalencePathRule, VerificationRule, AtomStrategy/EmptyStrategy.get_genf, "
-    "CombinatorialSpecification.get_equations (Count/Equations.v), tied by this correspondence",
+    "CombinatorialSpecification.get_equations (Count/Equations.v), tied by this correspondence; "
+    "CombinatorialSpecification.get_genf / get_initial_conditions / taylor_expand are in NO model",
     "translator harness/translate.py for Gen/ProductShifts.v (shifts used by C20_unique_series)",
     "harness/universes/words_stats_c20.py (classes with statistics, trees): brute-force truth through the classes' own "
-    "objects_of_size / get_parameters",
+    "objects_of_size / get_parameters; independent counting recurrences word_counts / tree_counts",
 ]
 ASSUMPTIONS = [
     "rules are genuine: the parent's true term table is the positionally re-keyed sum / Cauchy product of the "
-    "children's true term tables (strategy contract; checked by brute force on every generated rule)",
-    "extra_parameters dictionaries map parent parameters to parameters of the child, every child parameter is the image "
-    "of some parent parameter (otherwise the emitted equation keeps the child's own variable free: known finding), "
-    "parameter names of one class are distinct and differ from x; NO assumption relates the names of the child to "
-    "the names of the parent (they may coincide, be permuted, or overlap partially: Examples "
-    "C20_ex_union_swapped_names, C20_ex_product_shifted_names)",
+    "children's true term tables (strategy contract, a hypothesis of the theorems; evaluated by brute force for every "
+    "rule of every generated case up to the oracle's order 7-10 -- a rule that is genuine up to that size only would pass)",
+    "extra_parameters dictionaries map parent parameters to parameters of the child; every child parameter is the image "
+    "of some parent parameter or is 0 on every object of the child (otherwise the emitted equation keeps the child's own "
+    "variable free although get_terms sums it out: known finding); DisjointUnion.fixed_values is read by neither "
+    "get_equation nor the model: an equivalence path with fixed_values = {k: 0} is covered exactly when k is 0 on "
+    "every object of the end class; parameter names of one class are distinct and differ from x (never checked; a "
+    "statistic called x is not generated); NO assumption relates the names of the child to the names of the parent",
     "product rules: no two parent parameters are mapped to the same child parameter (otherwise known finding)",
-    "C20_unique_series: univariate, no Quotient rules, solutions vanish below the classes' minimum sizes",
+    "a placeholder equation F = NOTIMPLEMENTED(x) (EquivalenceRule of a reversed rule with a non-empty dictionary, "
+    "equivalence path through a reversed merging rule, AtomStrategy with parameters) is a refusal: no claim; it never "
+    "occurs without parameters (theorem), and a specification handed back by the searcher never contains a bare "
+    "EquivalenceRule (checked per case)",
+    "C20_closed_form_criterion: univariate, union/product/complement/atom/empty rules only (no Quotient, no user "
+    "verification strategy), integer Taylor coefficients, solutions vanish below the classes' minimum sizes",
 ]
 
 KINDS = {0: "union", 1: "product", 2: "rev_union", 3: "rev_product", 4: "equiv", 5: "equiv_rev", 6: "path",
-         7: "atom", 8: "empty", 9: "verified"}
+         7: "atom", 8: "empty", 9: "verified", 10: "equiv_rev_product", 11: "path_without_constructor"}
 
 
 # ----------------------------------------------------------------------------- universes
@@ -201,9 +244,19 @@ def _search(case):
         s = CombinatorialSpecificationSearcher(S.stat_start(cfg["start"]), S.stat_pack(cfg.get("spack", "keep")), ruledb=_W().make_ruledb(cfg["ruledb"]))
     else:
         S = _S()
-        kind = ("planted", cfg["planted"]) if cfg.get("planted") else "tree"
-        s = CombinatorialSpecificationSearcher(S.Tree(tuple(cfg["arities"]), kind), S.tree_pack(), ruledb=_W().make_ruledb(cfg["ruledb"]))
+        s = CombinatorialSpecificationSearcher(_tree_start(cfg), S.tree_pack(), ruledb=_W().make_ruledb(cfg["ruledb"]))
     return _det_search(s, 1 + cfg.get("tree_seed", 0) % 3)
+
+
+def _tree_start(cfg):
+    """trees universe: root kind 'tree' | planted on j leaves | the trees whose root has arity k"""
+    if cfg.get("planted"):
+        kind = ("planted", cfg["planted"])
+    elif cfg.get("node"):
+        kind = ("node", cfg["node"])
+    else:
+        kind = "tree"
+    return _S().Tree(tuple(cfg["arities"]), kind, tuple(cfg.get("weights", ())))
 
 
 def _stat_class(d):
@@ -217,7 +270,8 @@ def _build_rule(case):
     S = _S()
     r = case["rule"]
     parent = _stat_class(r["class"])
-    strat = {"expansion": S.StatExpansion, "remove_front": S.StatRemoveFront, "relabel": S.StatRelabel,
+    strat = {"expansion": S.StatExpansion, "expansion_last": S.StatExpansionLast, "remove_front": S.StatRemoveFront,
+             "relabel": S.StatRelabel, "unary_product": S.StatUnaryProduct,
              "remove_front_lw": lambda mode: S.StatRemoveFrontLW(mode, r.get("rest_pos", 0))}[r["strategy"]]
     form = r["form"]
     if form == "path":
@@ -226,10 +280,13 @@ def _build_rule(case):
         #   shape "back":  e1 .. ek, rev(ek) .. (r["back"] < k of them)
         cur, fwd_rules = parent, []
         for mode in r["steps"]:
-            st = S.StatRelabel(mode)
+            # {"product": mode}: the step is a product with a single factor instead of a unary union
+            st = S.StatUnaryProduct(mode["product"]) if isinstance(mode, dict) and "product" in mode else S.StatRelabel(mode)
             if st.decomposition_function(cur) is None:
                 break
-            e = st(cur).to_equivalence_rule()
+            # "bare": the rule itself is the step (how a specification holds a one-child rule), else wrapped in
+            # an EquivalenceRule
+            e = st(cur) if r.get("bare") else st(cur).to_equivalence_rule()
             fwd_rules.append(e)
             cur = e.children[0]
         if not fwd_rules:
@@ -358,18 +415,31 @@ def describe(rule, lab, vid):
             return [8, lab(cc)]
         return [9, lab(cc)]
     if isinstance(rule, EquivalencePathRule):
-        steps = [[int(isinstance(r.constructor, Complement)), ep(r.constructor.extra_parameters[0])] for r in rule.rules]
+        # per step: is its own constructor a Complement / Quotient (a reversed union / single-factor product)?
+        # and its dictionary.  A step WITHOUT a constructor (EquivalenceRule of a reversed single-factor product)
+        # leaves the whole path without one: kind 11
+        from comb_spec_searcher.strategies.constructor import Quotient
+
+        steps = []
+        for r in rule.rules:
+            try:
+                c = r.constructor
+            except NotImplementedError:
+                return [11, lab(cc), lab(rule.children[0])]
+            steps.append([int(isinstance(c, (Complement, Quotient))), ep(c.extra_parameters[0])])
         return [6, lab(cc), steps, lab(rule.children[0])]
     if isinstance(rule, EquivalenceRule):
         o = rule.original_rule
         if isinstance(o, ReverseRule):
             oo = o.original_rule
             if ctor_kind(oo) != 0:
-                raise ValueError("equivalence of a reversed non-union")
+                if len(oo.children) != 1:
+                    raise ValueError("equivalence of a reversed product with several factors")
+                return [10, lab(cc), lab(rule.children[0])]
             idx = oo.to_equivalence_rule().child_idx
             return [5, lab(cc), lab(rule.children[0]), ep(oo.constructor.extra_parameters[idx])]
-        if ctor_kind(o) != 0:
-            raise ValueError("equivalence of a non-union")
+        if ctor_kind(o) != 0 and len(o.children) != 1:
+            raise ValueError("equivalence of a product with several factors")
         return [4] + orule(o) + [rule.child_idx]
     if isinstance(rule, ReverseRule):
         o = rule.original_rule
@@ -424,7 +494,12 @@ def encode_with(case, res):
     repeat the search and the brute-force tables of every case serially"""
     if isinstance(res, dict) and "enc" in res:
         return res["enc"]
-    return encode(case)
+    if isinstance(res, dict) and "exception" in res:
+        return [0, [0], [], [], []]       # the implementation raised: reported by the oracle, nothing to model
+    try:
+        return encode(case)
+    except Exception:  # pylint: disable=broad-except
+        return [0, [0], [], [], []]
 
 
 # ----------------------------------------------------------------------------- canonical form of sympy trees
@@ -645,110 +720,629 @@ def impl(case):
     # process: see encode_with
     res["enc"] = encode(case)
     if case.get("genf"):
-        res["genf"] = _run_genf(b)
+        res["genf"] = _run_genf(b, case.get("check", 6))
     return res
 
 
+# ----------------------------------------------------------------------------- genuineness of the rules
+# The hypotheses union_genuine / product_genuine / atom_genuine / empty_genuine of the theorems
+# (Count/EquationsRules.v), evaluated on brute-force tables for the rule objects of the case -- by the
+# harness's own positional re-keying, not by the library's get_terms.
+def _rekey(parent, child, ep, counter):
+    """Coq `rk`: component q of the parent's key = value of the child parameter ep[q], 0 if q is not mapped;
+    child parameters that are nobody's image are summed out"""
+    cpos = {nm: i for i, nm in enumerate(child.extra_parameters)}
+    out = Counter()
+    for params, cnt in counter.items():
+        out[tuple(params[cpos[ep[q]]] if q in ep else 0 for q in parent.extra_parameters)] += cnt
+    return out
+
+
+def _dict_wf(parent, child, ep):
+    """kid_wf without its cover clause: keys are parent parameters, values are child parameters"""
+    return set(ep) <= set(parent.extra_parameters) and set(ep.values()) <= set(child.extra_parameters)
+
+
+def _unmapped(child, ep, M):
+    """child parameters that no parent parameter is mapped to -> 'zero' (0 on every object up to size M:
+    kid_wf0) or 'genuine' (takes a non-zero value: the shape of the open finding)"""
+    out = {}
+    for i, nm in enumerate(child.extra_parameters):
+        if nm not in ep.values():
+            zero = all(k[i] == 0 for n in range(M + 1) for k in truth(child, n))
+            out[nm] = "zero" if zero else "genuine"
+    return out
+
+
+def _union_genuine(parent, kids, M):
+    """kids = [(child, ep)]; None or (size, got, want)"""
+    for n in range(M + 1):
+        tot = Counter()
+        for c, ep in kids:
+            tot.update(_rekey(parent, c, ep, truth(c, n)))
+        want = truth(parent, n)
+        if +tot != +want:
+            return n, dict(tot), dict(want)
+    return None
+
+
+def _product_genuine(parent, kids, M):
+    k = len(parent.extra_parameters)
+    acc = {0: Counter({(0,) * k: 1})}
+    for c, ep in kids:
+        new = {}
+        for n1, t1 in acc.items():
+            for n2 in range(M + 1 - n1):
+                t2 = _rekey(parent, c, ep, truth(c, n2))
+                if not t2:
+                    continue
+                tgt = new.setdefault(n1 + n2, Counter())
+                for k1, c1 in t1.items():
+                    for k2, c2 in t2.items():
+                        tgt[tuple(a + b for a, b in zip(k1, k2))] += c1 * c2
+        acc = new
+    for n in range(M + 1):
+        got, want = acc.get(n, Counter()), truth(parent, n)
+        if +got != +want:
+            return n, dict(got), dict(want)
+    return None
+
+
+def _rule_source(rule):
+    """(kind, parent, [(child, ep)], note): the union / product whose genuineness the theorem for this
+    rule form assumes"""
+    from comb_spec_searcher.strategies.constructor import CartesianProduct, DisjointUnion
+    from comb_spec_searcher.strategies.rule import EquivalencePathRule, EquivalenceRule, ReverseRule, VerificationRule
+
+    if isinstance(rule, VerificationRule):
+        return None
+    if isinstance(rule, EquivalencePathRule):
+        try:
+            ep = dict(rule.constructor.extra_parameters[0])
+        except NotImplementedError:
+            return None       # no equation either
+        return "union", rule.comb_class, [(rule.children[0], ep)], "composed dictionary of the path"
+    if isinstance(rule, EquivalenceRule):
+        o = rule.original_rule
+        if isinstance(o, ReverseRule):
+            oo = o.original_rule
+            idx = oo.to_equivalence_rule().child_idx
+            return "union", oo.comb_class, [(oo.children[idx], dict(oo.constructor.extra_parameters[idx]))], "original rule, non-empty child"
+        return "union", o.comb_class, [(o.children[rule.child_idx], dict(o.constructor.extra_parameters[rule.child_idx]))], "non-empty child"
+    src = rule.original_rule if isinstance(rule, ReverseRule) else rule
+    c = src.constructor
+    kind = "union" if isinstance(c, DisjointUnion) else "product" if isinstance(c, CartesianProduct) else None
+    if kind is None:
+        return None
+    return kind, src.comb_class, [(k, dict(ep)) for k, ep in zip(src.children, c.extra_parameters)], \
+        "original rule" if src is not rule else ""
+
+
+def _genuine(b, M, facts):
+    """every rule of the case is genuine up to size M (the hypothesis of the rule-form theorems), its
+    dictionaries are well-formed; records the unmapped child parameters"""
+    from comb_spec_searcher import AtomStrategy
+    from comb_spec_searcher.strategies.rule import VerificationRule
+    from comb_spec_searcher.strategies.strategy import EmptyStrategy
+
+    for c in b.classes:       # class_wf: parameter names of one class are distinct, none is the size variable
+        ps = list(c.extra_parameters)
+        if len(set(ps)) != len(ps) or "x" in ps:
+            return "hypothesis violated: the parameter names %r of %r are not distinct names different from x" % (ps, c)
+    for r in b.rules:
+        if isinstance(r, VerificationRule):
+            c = r.comb_class
+            if isinstance(r.strategy, EmptyStrategy):
+                if any(truth(c, n) for n in range(M + 1)):
+                    return "hypothesis violated: %r has an EmptyStrategy rule and is not empty" % (c,)
+            elif isinstance(r.strategy, AtomStrategy):
+                m = c.minimum_size_of_object()
+                if any(sum(truth(c, n).values()) != int(n == m) for n in range(M + 1)):
+                    return "hypothesis violated: %r has an AtomStrategy rule and is not one object of size %d" % (c, m)
+            continue
+        src = _rule_source(r)
+        if src is None:
+            continue
+        kind, parent, kids, note = src
+        for c, ep in kids:
+            if not _dict_wf(parent, c, ep):
+                return "hypothesis violated: dictionary %r of the %s rule for %r does not map parameters of the parent to parameters of %r" % (ep, kind, parent, c)
+            for nm, how in _unmapped(c, ep, M).items():
+                facts.append("unmapped-child-parameter:" + how)
+        bad = (_union_genuine if kind == "union" else _product_genuine)(parent, kids, M)
+        if bad:
+            return ("hypothesis violated: the %s rule for %r%s is not genuine: at size %d the children's re-keyed terms "
+                    "combine to %r, the class has %r" % (kind, parent, " (%s)" % note if note else "", bad[0], bad[1], bad[2]))
+        facts.append("genuine:" + kind)
+    return None
+
+
+# ----------------------------------------------------------------------------- the two equation findings, mechanically
+def _explain(b, r, eq, M):
+    """The emitted equation is not satisfied.  Build the equation the open findings say should have been
+    emitted (an unmapped GENUINE child parameter set to 1; a product's child variable replaced by the product
+    of ALL parent variables mapped to it, as DisjointUnion.get_equation does) and evaluate it: the failure
+    counts as the known finding only if this repaired equation IS satisfied.  -> finding id or None"""
+    import sympy
+    from sympy.core.function import AppliedUndef
+
+    src = _rule_source(r)
+    if src is None:
+        return None
+    kind, parent, kids, _ = src
+    ids = []
+    rep = {}
+    labels = {}
+    for c, ep in kids:
+        labels.setdefault(b.label(c), []).append((c, ep))
+    for f in eq.atoms(AppliedUndef):
+        name = f.func.__name__
+        if not name.startswith("F_") or int(name[2:]) not in labels:
+            continue
+        for c, ep in labels[int(name[2:])]:
+            un = _unmapped(c, ep, M)
+            args = list(f.args)
+            changed = False
+            for i, nm in enumerate(c.extra_parameters):
+                if un.get(nm) == "genuine" and args[1 + i] == sympy.Symbol(nm):
+                    args[1 + i] = sympy.Integer(1)
+                    changed = True
+            if changed:
+                rep[f] = f.func(*args)
+                if "union-equation-unmapped-child-parameter" not in ids:
+                    ids.append("union-equation-unmapped-child-parameter")
+    fixed = eq.xreplace(rep) if rep else eq
+    if kind == "product" and any(len(set(ep.values())) < len(ep) for _, ep in kids) \
+            and isinstance(fixed, sympy.Equality) and fixed.lhs.func.__name__ == "F_%d" % b.label(parent):
+        rhs = sympy.Integer(1)
+        for c, ep in kids:
+            sub = {}
+            for q, cv in ep.items():
+                sub[sympy.Symbol(cv)] = sub.get(sympy.Symbol(cv), 1) * sympy.Symbol(q)
+            fc = c.get_function(b.label)
+            un = _unmapped(c, ep, M)
+            args = [sympy.Integer(1) if (i and un.get(c.extra_parameters[i - 1]) == "genuine") else a for i, a in enumerate(fc.args)]
+            rhs *= fc.func(*args).subs(sub, simultaneous=True)
+        fixed = sympy.Eq(fixed.lhs, rhs)
+        ids.append("product-equation-parameter-collision")
+    if not ids or not isinstance(fixed, sympy.Equality):
+        return None
+    L, R = evaluate(b, fixed, M)
+    if L != R:
+        return None
+    return "+".join(ids)
+
+
 # ----------------------------------------------------------------------------- get_genf
-def _run_genf(b):
-    """get_genf() as it is, and once more with sympy.solve's list of solutions reversed: the code
-    iterates over that list and returns the first solution passing its initial-condition check, so
-    the property must not depend on the order in which the solver lists the branches"""
+ORDER = 40          # Taylor coefficients compared up to x^ORDER
+_SOLVED = {}
+
+
+def _run_genf(b, check=6):
+    """get_genf(check) as it is, and -- when the solver returned several solutions -- once more with
+    sympy.solve's list of solutions reversed: the code iterates over that list and returns the first
+    solution passing its initial-condition check, so the property must not depend on the order in which
+    the solver lists the branches"""
     import sympy
     from comb_spec_searcher import specification as specmod
 
     out = []
     orig = specmod.solve
+    seen = {"n": None}
     for rev in (False, True):
-        if rev:
-            specmod.solve = lambda *a, **k: list(reversed(orig(*a, **k)))
+        if rev and (seen["n"] is None or seen["n"] < 2):
+            break
+
+        def solve(*a, _rev=rev, **k):
+            sols = orig(*a, **k)
+            seen["n"] = len(sols)
+            return list(reversed(sols)) if _rev else sols
+
+        specmod.solve = solve
         try:
-            g = b.spec.get_genf()
-            out.append({"genf": sympy.srepr(g), "str": str(g)})
+            g = b.spec.get_genf(check=check)
+            out.append({"genf": sympy.srepr(g), "str": str(g), "branches": seen["n"]})
         except Exception as ex:  # pylint: disable=broad-except
-            out.append({"exception": type(ex).__name__, "text": str(ex)[:200]})
+            out.append({"exception": type(ex).__name__, "text": str(ex)[:200], "branches": seen["n"]})
         finally:
             specmod.solve = orig
     return out
 
 
-def _taylor(expr, order):
-    """coefficients 0..order of a function analytic at 0, or None"""
+class _PS:
+    """truncated Laurent series over Q in x:  sum co[i] x^(val+i) + O(x^prec),  len(co) = prec - val.
+    Exact rational arithmetic with ABSOLUTE precision tracked through every operation (dividing by x^k or
+    cancelling leading terms lowers it), so that a coefficient is only ever reported when it is determined."""
+
+    def __init__(self, val, co, prec):
+        self.val, self.co, self.prec = val, co, prec
+
+    def strip(self):
+        k = 0
+        while k < len(self.co) and self.co[k] == 0:
+            k += 1
+        return _PS(self.val + k, self.co[k:], self.prec)
+
+    @staticmethod
+    def const(c, prec):
+        return _PS(0, [c] + [0] * (prec - 1), prec)
+
+    def add(self, o):
+        prec = min(self.prec, o.prec)
+        val = min(self.val, o.val)
+        co = [0] * max(prec - val, 0)
+        for s in (self, o):
+            for i, c in enumerate(s.co):
+                j = s.val + i - val
+                if j < len(co):
+                    co[j] += c
+        return _PS(val, co, prec)
+
+    def mul(self, o):
+        a, b = self.strip(), o.strip()
+        val = a.val + b.val
+        prec = min(a.prec + b.val, b.prec + a.val)
+        n = max(prec - val, 0)
+        co = [0] * n
+        for i, x in enumerate(a.co[:n]):
+            if x:
+                for j, y in enumerate(b.co[:n - i]):
+                    co[i + j] += x * y
+        return _PS(val, co, prec)
+
+    def inv(self):
+        a = self.strip()
+        if not a.co:
+            raise ArithmeticError("division by a series that vanishes to the known order")
+        n = len(a.co)
+        out = [1 / a.co[0]]
+        for k in range(1, n):
+            out.append(-sum(a.co[i] * out[k - i] for i in range(1, k + 1)) / a.co[0])
+        return _PS(-a.val, out, -a.val + n)
+
+    def sqrt(self):
+        from fractions import Fraction
+        from math import isqrt
+
+        a = self.strip()
+        if not a.co:
+            return _PS(a.val // 2 if a.val % 2 == 0 else (a.val + 1) // 2, [], (a.prec + 1) // 2)
+        c0 = Fraction(a.co[0])
+        if a.val % 2 or c0 <= 0 or isqrt(c0.numerator) ** 2 != c0.numerator or isqrt(c0.denominator) ** 2 != c0.denominator:
+            raise ArithmeticError("square root is not a Laurent series over Q")
+        r0 = Fraction(isqrt(c0.numerator), isqrt(c0.denominator))
+        n = len(a.co)
+        out = [r0]
+        for k in range(1, n):
+            out.append((a.co[k] - sum(out[i] * out[k - i] for i in range(1, k))) / (2 * r0))
+        return _PS(a.val // 2, out, a.val // 2 + n)
+
+
+def _ps_eval(e, prec):
+    """sympy expression in x (rational numbers, +, *, integer powers, square roots) -> _PS, exactly"""
+    import sympy
+    from fractions import Fraction
+
+    if e.is_Symbol:
+        if e.name != "x":
+            raise ArithmeticError("foreign symbol %s" % e)
+        return _PS(1, [Fraction(1)] + [0] * (prec - 2), prec)
+    if e.is_Rational:
+        return _PS.const(Fraction(int(e.p), int(e.q)), prec)
+    if e.is_Add:
+        out = _ps_eval(e.args[0], prec)
+        for a in e.args[1:]:
+            out = out.add(_ps_eval(a, prec))
+        return out
+    if e.is_Mul:
+        out = _ps_eval(e.args[0], prec)
+        for a in e.args[1:]:
+            out = out.mul(_ps_eval(a, prec))
+        return out
+    if e.is_Pow and e.exp.is_Rational:
+        base = _ps_eval(e.base, prec)
+        p, q = int(e.exp.p), int(e.exp.q)
+        if q == 2:
+            base = base.sqrt()
+        elif q != 1:
+            raise ArithmeticError("root of order %d" % q)
+        if p < 0:
+            base, p = base.inv(), -p
+        out = _PS.const(Fraction(1), prec)
+        for _ in range(p):
+            out = out.mul(base)
+        return out
+    raise ArithmeticError("not a rational / square-root expression: %s" % type(e).__name__)
+
+
+def _taylor(expr, order, integer=True):
+    """coefficients 0..order of a function analytic at 0 (a power series without negative exponents; with
+    integer=True: integer coefficients), or None.  Exact truncated-series arithmetic of the harness (_PS);
+    sympy.series only for expressions outside rational functions and square roots."""
     import sympy
 
+    expr = sympy.sympify(expr)
     x = sympy.var("x")
+    co = None
     try:
-        ser = sympy.series(expr, x, 0, order + 1).removeO()
-        p = sympy.Poly(sympy.expand(ser), x)
-    except Exception:  # pylint: disable=broad-except
-        return None
-    co = p.all_coeffs()[::-1]
-    if len(co) > order + 1 or any(not c.is_Integer for c in co):
-        if any(not c.is_Integer for c in co):
+        ps = _ps_eval(expr, order + 14)
+        if ps.prec >= order + 1:
+            s = ps.strip()
+            if s.val < 0 and s.co:
+                return None                       # a pole at 0
+            full = [0] * (order + 1)
+            for i, c in enumerate(s.co):
+                if s.val + i <= order:
+                    full[s.val + i] = c
+            co = [sympy.Rational(c.numerator, c.denominator) if c else sympy.Integer(0) for c in full]
+    except (ArithmeticError, ZeroDivisionError):
+        co = None
+    if co is None:
+        try:
+            ser = sympy.series(expr, x, 0, order + 1).removeO()
+            p = sympy.Poly(sympy.expand(ser), x)     # raises on negative or fractional exponents
+        except Exception:  # pylint: disable=broad-except
             return None
-    return [int(c) for c in co] + [0] * (order + 1 - len(co))
+        co = p.all_coeffs()[::-1]
+        if p.free_symbols - {x}:
+            return None
+        co = (co + [sympy.Integer(0)] * (order + 1))[:order + 1]
+    if integer and any(not c.is_Integer for c in co):
+        return None
+    return [int(c) if c.is_Integer else c for c in co]
 
 
-def _check_genf(case, b, info):
+def _solutions(eqs):
+    """sympy.solve on the emitted system, called as get_genf calls it; cached by the system (in memory and
+    under .work/, shared by the worker processes: an oracle-side computation that depends on the equations
+    only, never on what get_genf returned)"""
+    import hashlib
+    import os
     import sympy
     from itertools import chain
 
+    key = hashlib.sha1((sympy.__version__ + "|" + sympy.srepr(eqs)).encode()).hexdigest()
+    if key in _SOLVED:
+        return _SOLVED[key]
+    d = os.path.join(core.WORK, "c20_solved")
+    path = os.path.join(d, key + ".json")
+    sols = None
+    try:
+        with open(path) as f:
+            sols = [{sympy.sympify(a): sympy.sympify(e) for a, e in sol} for sol in json.load(f)]
+    except (OSError, ValueError, sympy.SympifyError):
+        sols = None
+    if sols is None:
+        funcs = set(chain.from_iterable(eq.atoms(sympy.Function) for eq in eqs))
+        sols = sympy.solve(eqs, funcs, dict=True, cubics=False, quartics=False, quintics=False)
+        try:
+            os.makedirs(d, exist_ok=True)
+            tmp = "%s.%d.tmp" % (path, os.getpid())
+            with open(tmp, "w") as f:
+                json.dump([[[sympy.srepr(a), sympy.srepr(e)] for a, e in sol.items()] for sol in sols], f)
+            os.replace(tmp, path)
+        except OSError:
+            pass
+    if len(_SOLVED) > 200:
+        _SOLVED.clear()
+    _SOLVED[key] = sols
+    return sols
+
+
+def _is_zero(expr):
+    """'simplify' if sympy.simplify proves expr == 0, 'series' if it cannot decide but the Taylor expansion
+    vanishes up to x^ORDER (weaker: recorded), None if expr is not zero"""
+    import sympy
+
+    try:
+        if sympy.simplify(expr) == 0:
+            return "simplify"
+    except Exception:  # pylint: disable=broad-except
+        pass
+    t = _taylor(expr, ORDER, integer=False)
+    if t is not None and all(c == 0 for c in t):
+        return "series"
+    return None
+
+
+def _pumps(keys, root):
+    """does `root` pump w.r.t. the forest keys [(parent, [(child, shift)])] (Forest/Spec.v `pumps`)?
+    Value iteration for D(c) = sup {v : derivable c v} from below; a value above the cut-off
+    (number of classes + 1) * (largest shift + 1) is taken to be infinite (the argument of C03's table
+    method)."""
+    classes = {p for p, _ in keys} | {c for _, ks in keys for c, _ in ks}
+    smax = max([abs(s) for _, ks in keys for _, s in ks] + [0])
+    cap = (len(classes) + 1) * (smax + 1)
+    INF = float("inf")
+    by = {}
+    for p, ks in keys:
+        by.setdefault(p, []).append(ks)
+    D = {c: 0 for c in classes}
+    order = sorted(classes)
+    for _ in range((cap + 3) * (len(classes) + 1)):
+        changed = False
+        for c in order:                      # in place: still the iteration from below of a monotone operator
+            best = D[c]
+            for ks in by.get(c, ()):
+                best = max(best, min([D[k] + s for k, s in ks] + [INF]))
+            if best > cap:
+                best = INF
+            if best != D[c]:
+                D[c] = best
+                changed = True
+        if not changed:
+            break
+    return D.get(root) == INF
+
+
+def _criterion(b, M):
+    """Does C20_closed_form_criterion speak about this specification?  -> ('applies', None) when every rule is
+    in the fragment union / product / complement / atom / empty (equivalence paths = one-child unions:
+    C20_without_parameters_equivalences_are_unions) AND the decidable hypotheses hold per instance: the rules'
+    own shifts() are the declared shifts of `to_srule` (keys_from_spec), declared minima >= 0 and no object
+    below them (urule_wf, third clause of `solution` for the true counts), the root pumps;
+    ('outside', reason) when a rule form is not covered; ('broken', which) when a hypothesis fails."""
+    from comb_spec_searcher.strategies.rule import VerificationRule
+
+    keys = []
+    for r in b.rules:
+        d = describe(r, b.label, b.vid)
+        k = d[0]
+        kids = [b.label(c) for c in r.children]
+        if k == 3:
+            return "outside", "quotient"
+        if k == 9:
+            return "outside", "verified"
+        if isinstance(r, VerificationRule):
+            if k == 7 and r.comb_class.minimum_size_of_object() < 0:
+                return "broken", "atom of negative size"
+            keys.append((b.label(r.comb_class), []))
+            continue
+        shifts = tuple(r.shifts())
+        if k == 1:
+            mins = [c.minimum_size_of_object() for c in r.children]
+            if any(m < 0 for m in mins):
+                return "broken", "negative minimum size"
+            for c, m in zip(r.children, mins):
+                if any(truth(c, n) for n in range(min(m, M + 1))):
+                    return "broken", "%r has objects below its declared minimum size %d" % (c, m)
+            want = tuple(sum(mins) - m for m in mins)
+        else:
+            want = (0,) * len(kids)
+        if shifts != want:
+            return "broken", "shifts() of the %s rule for %r are %r, the recurrence of the criterion declares %r" % (
+                KINDS[k], r.comb_class, shifts, want)
+        keys.append((b.label(r.comb_class), list(zip(kids, shifts))))
+    if len({p for p, _ in keys}) != len(keys):
+        return "broken", "two rules for one class"
+    if not _pumps(keys, b.label(b.spec.root)):
+        return "broken", "the root does not pump"
+    return "applies", None
+
+
+def _bf_order(b, indep):
+    """how far brute force (the class's own objects_of_size) is affordable for the ROOT of a get_genf case"""
+    S = _S()
+    root = b.spec.root
+    if isinstance(root, S.Tree):
+        n = 0
+        while n < 14 and n + 1 < len(indep) and indep[n + 1] <= 12000:
+            n += 1
+        return max(n, 8)
+    n = len(root.prefix)
+    while n < 14 and len(root.alphabet) ** (n + 1 - len(root.prefix)) <= 5000:
+        n += 1
+    return max(n, 7)
+
+
+def _check_genf(case, b, info, check, facts):
+    import sympy
+
+    spec = b.spec
     if "exception" in info:
-        if info["exception"] == "NotImplementedError" and b.spec.number_of_cvs() > 0:
+        if info["exception"] == "NotImplementedError" and spec.number_of_cvs() > 0:
+            facts.append("genf:refused:catalytic-variables")
             return None
-        if case["cfg"]["universe"] == "trees" and tuple(case["cfg"]["arities"]) != (2,):
-            return None  # equations of degree >= 3: solve is told not to use radicals
         return "get_genf raised %s: %s" % (info["exception"], info["text"])
-    x = sympy.var("x")
+    if spec.number_of_cvs() > 0:
+        return "get_genf returned %s for a specification with catalytic variables" % info["str"]
     g = sympy.sympify(info["genf"])
-    order = 30
-    co = _taylor(g, order)
+    root = spec.root
+    co = _taylor(g, ORDER)
     if co is None:
         return "get_genf returned %s, which has no Taylor expansion with integer coefficients" % info["str"]
-    M = _oracle_order(b)
-    for n in range(order + 1):
-        want = sum(truth(b.spec.root, n).values()) if n <= M else b.spec.count_objects_of_size(n)
+    # (c) Taylor coefficients: brute force as far as affordable, an independent recurrence beyond
+    indep = _S().independent_counts(root, ORDER)
+    B = min(_bf_order(b, indep), ORDER)
+    mism = None
+    for n in range(ORDER + 1):
+        if n <= B:
+            want, src = sum(truth(root, n).values()), "brute force"
+            if want != indep[n]:
+                return "harness: the independent recurrence gives %d objects of size %d of %r, brute force %d" % (indep[n], n, root, want)
+        else:
+            want, src = indep[n], "independent recurrence of the harness (beyond brute force)"
         if co[n] != want:
-            return "get_genf returned %s: coefficient of x^%d is %d, there are %d objects" % (info["str"], n, co[n], want)
-    return _genf_solves_system(b, info, g)
-
-
-def _genf_solves_system(b, info, g, vanish=True):
-    """identity check: g extends to a solution of the whole system (None) or why not; vanish=False: only "satisfies
-    every equation identically" (a BRANCH of the solved system, possibly the wrong one), without the initial conditions"""
-    import sympy
-    from itertools import chain
-
+            mism = (n, co[n], want, src)
+            break
+    # (a) the solved functions of all classes, on the branch get_genf picked
     eqs = tuple(b.eqs)
-    funcs = set(chain.from_iterable(eq.atoms(sympy.Function) for eq in eqs))
-    sols = sympy.solve(eqs, funcs, dict=True, cubics=False, quartics=False, quintics=False)
-    root_func = b.spec.get_function(b.spec.root)
-    why = "no solution of the system has %s as the root's function" % info["str"]
+    sols = _solutions(eqs)
+    root_func = spec.get_function(root)
+    branches = []     # solutions whose root function is the returned one
     for sol in sols:
-        if root_func not in sol or sympy.simplify(sol[root_func] - g) != 0:
-            continue
-        why = None
+        if root_func in sol and _is_zero(sol[root_func] - g):
+            branches.append(sol)
+    facts.append("genf:branches=%d" % len(sols))
+
+    def identities(sol):
+        """(b) every emitted equation as an identity -> (None, methods) or (why, None)"""
+        methods = set()
+        for c in spec.rules_dict:
+            if spec.get_function(c) not in sol:
+                return "no function solved for %s" % spec.get_function(c), None
         for eq in eqs:
-            if sympy.simplify(eq.lhs.subs(sol) - eq.rhs.subs(sol)) != 0:
-                why = "solution with root %s does not satisfy %s identically" % (info["str"], eq)
-                break
-        if why is None and vanish:
-            for c, r in b.spec.rules_dict.items():
-                f = b.spec.get_function(c)
-                if f not in sol:
-                    why = "no function solved for %s" % f
-                    break
-                mn = c.minimum_size_of_object() if not c.is_empty() else 0
-                t = _taylor(sol[f], max(mn, 1))
-                if t is None:
-                    why = "solved function for %s is not analytic at 0" % f
-                    break
-                if any(t[i] != 0 for i in range(mn)):
-                    why = "solved function for %s does not vanish below the minimum size %d" % (f, mn)
-                    break
+            how = _is_zero(eq.lhs.subs(sol) - eq.rhs.subs(sol))
+            if how is None:
+                return "it does not satisfy %s identically" % (eq,), None
+            methods.add(how)
+        return None, methods
+
+    def analytic(sol):
+        """every solved function is a power series with integer coefficients that vanishes below the class's
+        minimum size and agrees with brute force on EVERY class up to the oracle's order"""
+        Mall = min(_oracle_order(b), 8)
+        for c in spec.rules_dict:
+            f = spec.get_function(c)
+            mn = 0 if c.is_empty() else c.minimum_size_of_object()
+            t = _taylor(sol[f], max(mn, Mall))
+            if t is None:
+                return "the solved function of %s is not a power series with integer coefficients" % f, ("analytic", f, mn)
+            low = [i for i in range(mn) if t[i] != 0]
+            if low:
+                return "the solved function of %s does not vanish below its class's minimum size %d (coefficient of x^%d is %d)" % (f, mn, low[0], t[low[0]]), ("low", f, mn)
+            for n in range(Mall + 1):
+                want = sum(truth(c, n).values())
+                if t[n] != want:
+                    return "the solved function of %s has coefficient %d at x^%d, the class has %d objects" % (f, t[n], n, want), ("coef", f, n)
+        return None, None
+
+    if mism is not None:
+        n0, got, want, src = mism
+        msg = "get_genf returned %s: coefficient of x^%d is %d, there are %d objects (%s)" % (info["str"], n0, got, want, src)
+        # is it a branch of the solved system that passes get_genf's own check of the first check+1 terms?
+        if n0 > check:
+            for sol in branches:
+                why_id, _ = identities(sol)
+                if why_id is None:
+                    why_an, _ = analytic(sol)
+                    if why_an is None:
+                        return msg + "; it extends to functions of all classes that satisfy every emitted equation identically and vanish below the minimum sizes"
+                    return msg + "; it IS a branch of the solved system that satisfies every emitted equation identically and passes " \
+                        "get_genf's check of the first %d coefficients, but %s [wrong-branch n=%d check=%d]" % (check + 1, why_an, n0, check)
+        return msg
+    if not branches:
+        return "get_genf returned %s, which is the root's function in none of the %d solutions of the emitted system" % (info["str"], len(sols))
+    why = None
+    for sol in branches:
+        why, methods = identities(sol)
         if why is None:
-            return None
-    return why
+            why, _ = analytic(sol)
+        if why is None:
+            facts.append("genf:identity:" + ("series%d" % ORDER if "series" in methods else "simplify"))
+            break
+    if why is not None:
+        return "get_genf returned %s; extended to all classes by the solved system, %s" % (info["str"], why)
+    facts.append("genf:taylor:brute-force<=%d,independent<=%d" % (B, ORDER))
+    # the library's own counts (get_genf's initial conditions): recorded, not part of the verdict
+    lib_ok = all(spec.count_objects_of_size(n) == indep[n] for n in range(0, ORDER + 1, 3))
+    facts.append("genf:spec-counts-" + ("agree" if lib_ok else "DIFFER"))
+    # does the theorem speak about this specification?
+    verdict, what = _criterion(b, _oracle_order(b))
+    facts.append("genf:criterion:" + verdict + (":" + what.split(" ")[0] if verdict == "outside" else ""))
+    if verdict == "broken":
+        return "hypothesis of C20_closed_form_criterion violated by the returned specification: %s" % what
+    return None
 
 
 # ----------------------------------------------------------------------------- oracle
@@ -771,137 +1365,76 @@ def oracle(case, res):
     b = bundle(case)
     if not b.rules:
         return None
+    facts = res.setdefault("facts", [])
+    del facts[:]
     M = _oracle_order(b)
-    # EVERY failure of the case is collected; the first one that is not an open known finding is reported (a masked
-    # one only when nothing else is wrong with the case)
-    failures = []
+    why = _genuine(b, M, facts)
+    if why:
+        return why
+    if b.spec is not None:
+        from comb_spec_searcher.strategies.rule import EquivalenceRule
+
+        if any(isinstance(r, EquivalenceRule) for r in b.rules):
+            return "the specification contains a bare EquivalenceRule (not grouped into an EquivalencePathRule)"
     for i, (r, eq) in enumerate(zip(b.rules, b.eqs)):
         st = res["status"][i]
         if st == 3:
-            failures.append("rule %d: get_equations yielded %r instead of an equation" % (i, eq))
-            continue
+            return "rule %d: get_equations yielded %r instead of an equation" % (i, eq)
         if st == 1:
-            continue  # F = NOTIMPLEMENTED(x): no claim made
+            # F = NOTIMPLEMENTED(x): the rule has no equation (an explicit refusal); no claim -- but it must
+            # be a refusal the code is known to make: some dictionary of the rule is non-empty
+            if res["kinds"][i] not in (10, 11) and not any(c.extra_parameters for c in _rule_classes(r)):
+                return "placeholder equation %s for a rule without parameters" % (eq,)
+            facts.append("placeholder" + ("@spec" if b.spec is not None else ""))
+            continue
         L, R = evaluate(b, eq, M)
         if L != R:
             dl = {tuple(k): v for k, v in L}
             dr = {tuple(k): v for k, v in R}
             bad = sorted(k for k in set(dl) | set(dr) if dl.get(k, 0) != dr.get(k, 0))[0]
             names = sorted(b.vid, key=lambda k: b.vid[k]) + ["(foreign symbol)"] * len(bad)
-            failures.append("equation %s of the %s rule for %r is not satisfied by the true series: coefficient of %s is %d on the left, %d on the right%s" % (
+            msg = "equation %s of the %s rule for %r is not satisfied by the true series: coefficient of %s is %d on the left, %d on the right" % (
                 eq, KINDS[res["kinds"][i]], r.comb_class,
-                "*".join("%s^%d" % (nm, e) for nm, e in zip(names, bad)), dl.get(bad, 0), dr.get(bad, 0),
-                _equation_finding_tag(b, r, eq, M)))
+                "*".join("%s^%d" % (nm, e) for nm, e in zip(names, bad)), dl.get(bad, 0), dr.get(bad, 0))
+            fid = _explain(b, r, eq, M)
+            if fid:
+                msg += " [the rule is genuine; the equation repaired as the open finding says is satisfied: %s]" % fid
+            return msg
     if case.get("genf") and "genf" in res:
+        check = case.get("check", 6)
         for which, info in zip(("", " (solver's solutions listed in reverse order)"), res["genf"]):
-            why = _check_genf(case, b, info)
+            why = _check_genf(case, b, info, check, facts)
             if why:
-                if which and len(res["genf"]) == 2 and _check_genf(case, b, res["genf"][0]) is None:
-                    why += _wrong_branch_tag(b, info, why)
-                failures.append(why + which)
-    for why in failures:
-        if finding_match(case, why) is None:
-            return why
-    return failures[0] if failures else None
+                return why + which
+    return None
 
 
-# ---- what exactly the three open findings are (tags written by the oracle, read by finding_match)
-TAG_COLLISION = " [repaired: satisfied once a child parameter that several parent parameters are mapped to is given the PRODUCT of their variables]"
-TAG_UNMAPPED = " [repaired: satisfied once every child parameter that no parent parameter is mapped to is set to 1]"
-TAG_BRANCH = " [wrong branch: the returned function solves the system and agrees with the counts on the 7 terms get_genf compares]"
-
-
-def _equation_finding_tag(b, rule, eq, M):
-    """'' unless the failing equation is EXPLAINED by one of the two open equation findings: the rule's constructor
-    (for a reverse rule: the original rule's, whose equation ReverseRule.get_equation falls back to) is a
-    DisjointUnion / CartesianProduct whose dictionaries have the defect's shape, and the equation IS satisfied by the
-    true series once every child function is applied to what the dictionaries say (child parameter c := product of
-    the parent parameters mapped to c; := 1 when there is none) - i.e. the defect's own repair, and nothing else,
-    makes the failure go away."""
-    import sympy
-    from sympy.core.function import AppliedUndef
-    from comb_spec_searcher.strategies.constructor import CartesianProduct, DisjointUnion
-    from comb_spec_searcher.strategies.rule import ReverseRule, VerificationRule
-
-    try:
-        if isinstance(rule, VerificationRule):
-            return ""
-        # a reverse rule's equation is the original rule's, solved for the flipped child or (fallback) as it is
-        src = rule.original_rule if isinstance(rule, ReverseRule) else rule
-        cons = src.constructor
-        if not isinstance(cons, (CartesianProduct, DisjointUnion)):
-            return ""
-        heads = {src.comb_class.get_function(b.label).func} | {c.get_function(b.label).func for c in src.children}
-        if {f.func for f in eq.atoms(AppliedUndef)} - heads:
-            return ""                         # not an equation between the classes of `src`
-        collision = unmapped = False
-        want = {}
-        for child, ep in zip(src.children, cons.extra_parameters):
-            args = [sympy.var("x")]
-            for cp in child.extra_parameters:
-                parents = [pv for pv, cv in ep.items() if cv == cp]
-                if len(parents) > 1 and isinstance(cons, CartesianProduct):
-                    collision = True
-                if not parents:
-                    unmapped = True
-                args.append(sympy.Mul(*[sympy.var(pv) for pv in parents]) if parents else sympy.Integer(1))
-            f = child.get_function(b.label)
-            new = f.func(*args)
-            if f in want and want[f] != new:
-                return ""                     # one class twice with different dictionaries: not decided here
-            want[f] = new
-        if not (collision or unmapped):
-            return ""
-        parent_head = src.comb_class.get_function(b.label).func
-        m = {}
-        for f in eq.atoms(AppliedUndef):
-            for g, new in want.items():
-                if f.func == g.func and f.func != parent_head:
-                    m[f] = new
-        L, R = evaluate(b, sympy.Eq(eq.lhs.xreplace(m), eq.rhs.xreplace(m)), M)
-        if L != R:
-            return ""
-        return TAG_COLLISION if collision else TAG_UNMAPPED
-    except Exception:  # pylint: disable=broad-except
-        return ""
-
-
-def _wrong_branch_tag(b, info, why):
-    """'' unless the failure of the reversed-solver run is the open finding and nothing else: get_genf returned a
-    function, the only thing wrong with it is a Taylor coefficient BEYOND the 7 terms the library compares (so the
-    library's own check could not tell the branches apart), and the function really is a branch of the solved system"""
-    import re as _re
-    import sympy
-
-    try:
-        if "exception" in info:
-            return ""
-        m = _re.search(r": coefficient of x\^(\d+) is -?\d+, there are \d+ objects$", why)
-        if not m or int(m.group(1)) < 7:
-            return ""
-        if _genf_solves_system(b, info, sympy.sympify(info["genf"]), vanish=False) is not None:
-            return ""
-        return TAG_BRANCH
-    except Exception:  # pylint: disable=broad-except
-        return ""
+_WRONG_BRANCH = None
 
 
 def finding_match(case, why):
-    """narrow: a failure belongs to an open finding only when the oracle has established the finding's own root cause
-    on the real objects of the case (tags above): the failing equation is satisfied after exactly the repair the
-    finding describes, resp. get_genf returned a true branch of the system that agrees with the counts on the terms
-    the library compares.  Everything else on the same inputs (another coefficient pattern that the repair does not
-    cure, exceptions, functions that are no solution, failures of the as-is solver order) matches nothing."""
+    """narrow, by MECHANISM:
+    * the two equation findings: only when the oracle has shown that the rule is genuine and that the
+      equation repaired exactly as the finding proposes is satisfied (any other defect on the same input
+      leaves the repaired equation unsatisfied and is reported);
+    * the get_genf finding: only the wrong-branch symptom itself -- the returned function is a branch of
+      the solved system that satisfies every equation identically, passes get_genf's own comparison of
+      the first check+1 coefficients, and first differs from the counts at x^planted with planted > check
+      (exceptions, non-solutions, mismatches below the compared terms, identity failures are reported)"""
+    import re
+
     if not why:
         return None
-    if (case["kind"] == "spec" and case["cfg"].get("planted", 0) >= 7
-            and why.endswith(TAG_BRANCH + " (solver's solutions listed in reverse order)")):
-        return "genf-selection-depends-on-solver-order"
-    if case["kind"] == "rule" and "not satisfied" in why:
-        if why.endswith(TAG_COLLISION):
-            return "product-equation-parameter-collision"
-        if why.endswith(TAG_UNMAPPED):
-            return "union-equation-unmapped-child-parameter"
+    m = re.search(r"\[wrong-branch n=(\d+) check=(\d+)\]", why)
+    if m and case["kind"] == "spec" and case["cfg"].get("universe") == "trees":
+        n0, check = int(m.group(1)), int(m.group(2))
+        if case["cfg"].get("planted", 0) == n0 and n0 > check and check == case.get("check", 6):
+            return "genf-selection-depends-on-solver-order"
+        return None
+    m = re.search(r"repaired as the open finding says is satisfied: ([a-z+-]+)\]", why)
+    if m and "not satisfied" in why:
+        ids = m.group(1).split("+")
+        return ids[0] if len(ids) == 1 else None
     return None
 
 
@@ -922,7 +1455,11 @@ STAT_SETS = [
     [("p", "a"), ("q", "b")], [("q", "a"), ("p", "b")], [("k_1", "a"), ("k_2", "b")], [("k_2", "a"), ("k_1", "b")],
     [("k_0", "a"), ("k_1", "b"), ("k_2", "c")], [("k_3", "c"), ("k_2", "a"), ("k_1", "b")], [("b", "a"), ("a", "b")],
     [("k_1", "a"), ("k_2", "a"), ("k_3", "b")], [("r", "b"), ("s", "a"), ("t", "b")],
+    # ZERO statistics: ("z", "#") counts a letter of no alphabet, it is 0 on every word
+    [("z", "#")], [("k", "a"), ("z", "#")], [("z", "#"), ("k", "b")], [("k", "a"), ("z", "#"), ("m", "b")],
+    [("z", "#"), ("y", "#")],
 ]
+ZERO_MODES = [12, 13]       # drop the zero statistics / track one more zero statistic
 # integer modes of harness/universes/words_stats_c20.py
 LEGACY_MODES = [0, 1, 2]
 PERMUTING_MODES = [4, 5, 6, 7, 8, 9, 10, 11]
@@ -960,44 +1497,78 @@ def _gen_mode(rng, strategy, stats):
     """a statistics mode for one strategy application: legacy int / name-permuting int / list of ints per
     child / explicit maps.  Products never get two parameters merged onto one child parameter here (that is
     the known finding's own, separately generated, shape)."""
-    product = strategy.startswith("remove_front")
+    product = strategy.startswith("remove_front") or strategy == "unary_product"   # ("expansion_last" is a union)
     dup = len({l for _, l in stats}) < len(stats)
     ints = LEGACY_MODES + PERMUTING_MODES
     if product and dup:
         ints = [m for m in ints if m not in (1, 8)]
-    if strategy == "relabel":
+    if strategy in ("relabel", "unary_product"):
         ints = [m for m in ints if m != 0]
     x = rng.random()
+    if rng.random() < (0.5 if any(l == "#" for _, l in stats) else 0.06):
+        return rng.choice(ZERO_MODES)
     if x < 0.3:
         return rng.choice([m for m in ints if m in LEGACY_MODES])
     if x < 0.6:
         return rng.choice([m for m in ints if m in PERMUTING_MODES])
-    if x < 0.75 and strategy != "relabel":
+    if x < 0.75 and strategy not in ("relabel", "unary_product"):
         return [rng.choice(ints) for _ in range(rng.randint(2, 3))]
-    n = 1 if strategy == "relabel" else rng.randint(1, 3)
+    n = 1 if strategy in ("relabel", "unary_product") else rng.randint(1, 3)
     return {"maps": [_gen_map(rng, stats, not product) for _ in range(n)],
             "rev": [rng.randint(0, 1) for _ in range(rng.randint(1, 2))]}
 
 
 def _gen_rule(rng, findings):
     p, pats, alph = rng.choice(STAT_CLASSES)
-    stats = [s for s in rng.choice(STAT_SETS) if s[1] in alph]
+    stats = [s for s in rng.choice(STAT_SETS) if s[1] in alph or s[1] == "#"]
     cls = {"prefix": p, "patterns": pats, "alphabet": alph, "stats": [list(s) for s in stats]}
     x = rng.random()
     if x < 0.2:
-        steps = [_gen_mode(rng, "relabel", stats) if rng.random() < 0.8 else rng.choice([1, 2, 2])
+        steps = [_gen_mode(rng, "relabel", stats) if rng.random() < 0.8 else rng.choice([1, 2, 2, 12, 13])
                  for _ in range(rng.randint(1, 3))]
         rule = {"class": cls, "strategy": "relabel", "form": "path", "steps": steps, "mode": 0,
                 "shape": rng.choice(["fwd", "rev", "back"]), "back": rng.randint(1, 2)}
+        if rng.random() < 0.3:
+            rule["bare"] = 1                 # the steps are the one-child rules themselves (as in a specification)
+        if rng.random() < 0.25:
+            # some steps are products with a single factor (bare: composed like union / Complement steps;
+            # wrapped and reversed: the path has no constructor)
+            for i, st in enumerate(steps):
+                if isinstance(st, int) and rng.random() < 0.6:
+                    steps[i] = {"product": st}
+        if findings and rng.random() < 0.03:
+            steps[rng.randrange(len(steps))] = 3       # a step whose child tracks one more genuine statistic
+            rule["shape"] = "fwd"                      # (forwards only, see below)
     else:
-        strategy = rng.choice(["expansion", "expansion", "remove_front", "remove_front", "remove_front_lw", "relabel"])
+        strategy = rng.choice(["expansion", "expansion", "remove_front", "remove_front", "remove_front_lw", "relabel",
+                               "expansion_last", "unary_product"])
         form = rng.choice(["fwd", "fwd", "rev", "rev", "equiv", "equiv_rev"])
+        if strategy.startswith("expansion") and form.startswith("equiv") and rng.random() < 0.8:
+            # classes on which the expansion IS an equivalence (every extension of the prefix is empty)
+            p, pats, alph = rng.choice([("a", ["aa", "ab"], "ab"), ("b", ["ba", "bb"], "ab"), ("ab", ["aba", "abb"], "ab"),
+                                        ("c", ["ca", "cb", "cc"], "abc")])
+            cls.update({"prefix": p, "patterns": pats, "alphabet": alph})
+            cls["stats"] = stats = [t for t in stats if t[1] in alph or t[1] == "#"]
         if findings and rng.random() < 0.04:
-            strategy, mode = rng.choice([("expansion", 3), ("remove_front", 1)])
+            strategy, mode = rng.choice([("expansion", 3), ("remove_front", 1), ("relabel", 3), ("remove_front", 3)])
+            if (strategy, mode) == ("remove_front", 3):
+                form = rng.choice(["fwd", "fwd", "rev"])
+                if len({l for _, l in stats}) < len(stats):
+                    mode = 1          # (two names for one letter: the collision shape instead, not both at once)
+            if strategy == "relabel":
+                # forwards only: REVERSING a rule whose child tracks a statistic the parent does not is not a
+                # genuine rule (C09's open finding complement-untracked-child-statistic), no claim there
+                form = rng.choice(["fwd", "equiv"])
         else:
             if form in ("rev", "equiv_rev") and rng.random() < 0.3:
                 cls["stats"] = stats = []       # Complement / Quotient emit their own equation only without parameters
+            elif form == "equiv_rev" and rng.random() < 0.5:
+                # the reverse equivalence has an equation only with the EMPTY dictionary: zero statistics only
+                cls["stats"] = stats = [list(t) for t in rng.choice([[("z", "#")], [("z", "#"), ("y", "#")], []])]
+                strategy = "relabel"
             mode = _gen_mode(rng, strategy, stats)
+            if form == "equiv_rev" and strategy == "relabel" and all(l == "#" for _, l in stats):
+                mode = rng.choice([12, 13, 13]) if stats else 13
         rule = {"class": cls, "strategy": strategy, "mode": mode, "form": form, "idx": rng.randint(0, 3)}
         if strategy == "remove_front_lw":
             rule["rest_pos"] = rng.randint(0, 2)
@@ -1007,41 +1578,61 @@ def _gen_rule(rng, findings):
 def _gen_spec(rng, tier, genf_ok, solver_order_known=False):
     W, S = _W(), _S()
     x = rng.random()
-    if x < 0.5:
+    if x < 0.47:
         cfg = W.random_cfg(rng)
         cfg["universe"] = "words"
         cfg.pop("smallest", None)
         alph = W.START_SPECS[cfg["start"]][2]
         case = {"kind": "spec", "cfg": cfg, "N": 5 if len(alph) == 2 else 4}
         big = W.START_SPECS[cfg["start"]][1] == ["ababa", "babb"]
-        if genf_ok and not big and rng.random() < 3 * GENF_SHARE[tier]:
-            case["genf"] = True
+        if genf_ok and not big and rng.random() < GENF_SHARE[tier]:
+            case["genf"] = True      # linear systems: rational closed forms, one solution
         return case
-    if x < 0.85:
+    if x < 0.78:
         cfg = {"universe": "stats", "start": rng.randrange(len(S.STAT_STARTS)), "ruledb": rng.choice(W.RULEDBS),
                "tree_seed": rng.randrange(1 << 30), "spack": rng.choice(sorted(S.STAT_PACKS))}
         alph = S.STAT_STARTS[cfg["start"]][2]
         case = {"kind": "spec", "cfg": cfg, "N": 5 if len(alph) == 2 else 4}
-        if genf_ok and rng.random() < GENF_SHARE[tier]:
+        if genf_ok and rng.random() < 0.05:
             case["genf"] = True      # must raise NotImplementedError (catalytic variables)
         return case
-    cfg = {"universe": "trees", "arities": list(rng.choice(S.TREE_STARTS)), "ruledb": rng.choice(W.RULEDBS),
+    # trees.  Degree <= 2 (GENF_TREES: arities within {1, 2}, weighted nodes): get_genf is asked for a closed
+    # form -- rational for arities (1,), square roots with two branches otherwise; degree >= 3: equations only
+    # (sympy.solve without radicals does not finish in reasonable time on them)
+    if rng.random() < 0.8:
+        ar, wt = rng.choice(S.GENF_TREES)
+        cfg = {"universe": "trees", "arities": list(ar), "weights": list(wt), "ruledb": rng.choice(W.RULEDBS),
+               "tree_seed": rng.randrange(1 << 30)}
+        case = {"kind": "spec", "cfg": cfg, "N": 6}
+        if genf_ok:
+            case["genf"] = True
+            check = rng.choice([6, 6, 6, 3, 9])
+            if check != 6:
+                case["check"] = check
+        else:
+            check = 6
+        y = rng.random()
+        if y < 0.55:
+            # root = leaf^j x tree: the branches of the root agree below x^j; up to j = check the comparison
+            # of get_genf still separates them (j = check is the boundary)
+            cfg["planted"] = rng.choice([1, 2, 3, check - 1, check, check])
+            if solver_order_known and ar[-1] == 2 and wt[-1] == 0 and rng.random() < 0.12:
+                cfg["planted"] = check + rng.randint(1, 2)   # the branch is decided by a NON-root class only
+        elif y < 0.75:
+            cfg["node"] = ar[-1]
+        return case
+    cfg = {"universe": "trees", "arities": list(rng.choice(S.TREE_STARTS[1:])), "ruledb": rng.choice(W.RULEDBS),
            "tree_seed": rng.randrange(1 << 30)}
     if rng.random() < 0.5:
-        cfg["planted"] = rng.randint(1, 5)      # root = leaf^j x tree: the branches agree up to order j
-        if solver_order_known and rng.random() < 0.08:
-            cfg["planted"] = rng.randint(7, 8)  # ... beyond the 7 initial conditions get_genf compares
-    case = {"kind": "spec", "cfg": cfg, "N": 6}
-    if genf_ok and cfg["arities"] == [2] and rng.random() < 0.6:
-        case["genf"] = True
-    return case
+        cfg["planted"] = rng.randint(1, 5)
+    return {"kind": "spec", "cfg": cfg, "N": 6}
 
 
 def gen(rng, tier):
     findings = {k.get("match") for k in core.load_known() if k.get("property") == ID and k.get("kind") == "open"}
     both = {"product-equation-parameter-collision", "union-equation-unmapped-child-parameter"} <= findings
     n_genf = 0
-    cap = 40 if tier == "quick" else 600
+    cap = 420 if tier == "quick" else 6000
     while True:
         if rng.random() < 0.55:
             for attempt in range(12):
@@ -1089,6 +1680,11 @@ def classify(case, res):
         md = case["rule"]["mode"]
         tags.append("strategy:%s/%s" % (case["rule"]["strategy"], md if isinstance(md, int) else
                                         "per-child" if isinstance(md, list) else "explicit"))
+        steps = case["rule"].get("steps") or []
+        if case["rule"]["strategy"] == "unary_product" or any(isinstance(t, dict) and "product" in t for t in steps):
+            tags.append("strategy:unary_product")
+        if case["rule"].get("bare"):
+            tags.append("path:bare-steps")
     if isinstance(res.get("out"), list) and not res["out"]:
         tags.append("not-applicable")
     for k, st in zip(res.get("kinds", []), res.get("status", [])):
@@ -1098,6 +1694,11 @@ def classify(case, res):
             tags.append("perm:" + KINDS[k] + ("@spec" if case["kind"] == "spec" else ""))
     if case["kind"] == "spec" and case["cfg"]["universe"] == "stats":
         tags.append("spack:" + case["cfg"].get("spack", "keep"))
+    if case["kind"] == "spec" and case["cfg"]["universe"] == "trees" and case.get("genf"):
+        tags.append("genf-system:%s" % ("rational" if case["cfg"]["arities"] == [1] else "algebraic"))
+        if case.get("check", 6) != 6:
+            tags.append("genf:check=%d" % case["check"])
+    tags += list(res.get("facts", []))     # written by the oracle (worker process): what was checked and how
     names = set()
     for d in res.get("out") if isinstance(res.get("out"), list) else []:
         if len(d[3]) == 3 and d[3][1] and len(d[3][1][0][0]) > 1:
@@ -1107,6 +1708,9 @@ def classify(case, res):
 
 def _shrink_mode(mode):
     """simpler statistics modes (never towards the modes 1 / 3 of the known findings unless already there)"""
+    if isinstance(mode, dict) and "product" in mode:
+        yield mode["product"]
+        return
     if isinstance(mode, list):
         for m in mode:
             yield m
@@ -1159,7 +1763,13 @@ def shrink(case):
             c = dict(case)
             c.pop("genf")
             yield c
+        if "check" in case:
+            c = dict(case)
+            c.pop("check")
+            yield c
         cfg = case["cfg"]
+        if cfg.get("planted", 0) > 1:
+            yield {**case, "cfg": {**cfg, "planted": cfg["planted"] - 1}}
         if cfg.get("expand_verified"):
             yield {**case, "cfg": {**cfg, "expand_verified": False}}
         if cfg.get("pack") not in (None, "base"):
@@ -1174,12 +1784,16 @@ def shrink(case):
 
 def extra_checks(ctx):
     """non-vacuity: the stream reached every rule form, several variables, reverse rules in specifications,
-    non-linear systems and get_genf results"""
+    non-linear systems and get_genf results; what the oracle checked per case (facts)"""
     tags = Counter()
+    occ = Counter()
     for c, (res, _, _) in zip(ctx.cases, ctx.impl_res):
-        for t in set(classify(c, res)):
+        cl = classify(c, res)
+        occ.update(cl)
+        for t in set(cl):
             tags[t] += 1
-    need = ["eq:union", "eq:product", "eq:rev_union", "eq:rev_product", "eq:equiv", "eq:path", "eq:atom", "eq:empty",
+    need = ["eq:union", "eq:product", "eq:rev_union", "eq:rev_product", "eq:equiv", "eq:equiv_rev", "eq:path", "eq:atom",
+            "eq:empty", "eq:verified",
             "multivariate-evaluated", "genf:returned", "universe:trees", "universe:stats",
             # name-permuting parameter maps (emitted and evaluated equations) in every rule form
             "perm:union", "perm:product", "perm:rev_union", "perm:rev_product", "perm:equiv", "perm:path",
@@ -1187,8 +1801,28 @@ def extra_checks(ctx):
     # (reverse rules with name-permuting dictionaries inside specifications are rare in the random stream: the
     # corpus cases spec_stats_factory_* guarantee them on every run)
     need += ["perm:path@spec", "perm:rev_union@spec", "perm:rev_product@spec"]
+    # child parameters nobody is mapped to that are 0 on every object (fixed_values paths, reversed zero
+    # statistics), the equations a reverse equivalence does emit, refusals, closed forms of both kinds
+    need += ["eq:equiv_rev_product:notimplemented", "eq:path_without_constructor:notimplemented", "strategy:unary_product",
+             "unmapped-child-parameter:zero", "placeholder", "placeholder@spec", "genf:branches=1", "genf:branches=2",
+             "genf-system:rational", "genf-system:algebraic", "genf:criterion:applies", "genf:refused:catalytic-variables"]
     if len(ctx.cases) < 150:
         return []
     missing = [t for t in need if not tags.get(t)]
-    return [("generator reached every rule form / universe (%s)" % ", ".join("%s=%d" % (t, tags[t]) for t in need),
-             not missing, "missing: %s" % missing if missing else "ok")]
+    out = [("generator reached every rule form / universe (%s)" % ", ".join("%s=%d" % (t, tags[t]) for t in need),
+            not missing, "missing: %s" % missing if missing else "ok")]
+    big = len(ctx.cases) >= 2000
+    g = tags.get("genf:returned", 0)
+    out.append(("get_genf returned a closed form in %d cases (quick tier: at least 150)" % g, g >= 150 or not big, "%d" % g))
+    out.append(("rule genuineness (union_genuine / product_genuine of Count/EquationsRules.v on brute-force tables) "
+                "evaluated for %d union-type and %d product-type rule instances; every one genuine" % (
+                    occ.get("genuine:union", 0), occ.get("genuine:product", 0)),
+                occ.get("genuine:union", 0) > 0 and occ.get("genuine:product", 0) > 0, "ok"))
+    ident = {t: n for t, n in tags.items() if t.startswith("genf:identity:")}
+    crit = {t: n for t, n in tags.items() if t.startswith("genf:criterion:")}
+    cnts = {t: n for t, n in tags.items() if t.startswith("genf:spec-counts-")}
+    out.append(("closed forms: identity check %s; criterion %s; library counts vs independent recurrence %s" % (
+        ident, crit, cnts), not tags.get("genf:criterion:broken") and not tags.get("genf:spec-counts-DIFFER"),
+        "C20_closed_form_criterion's per-instance hypotheses failed / the specification's own counts differ"
+        if tags.get("genf:criterion:broken") or tags.get("genf:spec-counts-DIFFER") else "ok"))
+    return out
